@@ -353,10 +353,10 @@ def _r6_documented_predicates_shape(ctx):
             _deferred_shape(ctx, m)
 
 
-def _deferred_by_interpretation(ctx, m):
-    """Build Deferred["pkg.sub.Cls"] abstractly (module not loaded) and ask its class test about classes from various
-    modules: it answers issubclass(cls, <the class>) exactly for classes whose module's first dotted component is
-    `pkg`, False otherwise, and resolves the reference (imports) only in the first case."""
+def _deferred_setup(ctx, m):
+    """(build, imported) - `build()` constructs Deferred["pkg.sub.Cls"] abstractly (module not loaded) and returns a
+    function asking that fresh type's class test about a class; `imported` lists the references resolved so far.
+    None if the construct is not the expected shape (a note says why)."""
     from ..metainterp import Closure, HostFn, HostInterp, Raised, Record
     from ..model import AnalysisError
 
@@ -400,15 +400,35 @@ def _deferred_by_interpretation(ctx, m):
     for c in ast.walk(m.node):
         if isinstance(c, ast.Call) and isinstance(c.func, ast.Name) and c.func.id not in genv and any(isinstance(a, ast.Call) and isinstance(a.func, ast.Name) and genv.get(a.func.id) is handler_ctor for a in c.args):
             genv[c.func.id] = lambda *a, **k: Record(kind="type")
-    try:
+
+    def build():
+        captured.clear()
         hi = HostInterp({}, Record(), {}, globals_env=genv, classes={}, functions={k: v for k, v in funcs_of_module.items() if k not in genv})
         hi.call_function(m.node, [Record(kind="Deferred"), "pkg.sub.Cls"], {}, {})
         check = captured.get("check")
         if isinstance(check, Closure):
-            run = lambda k: hi.call_function(check.node, [k], {}, check.env)  # noqa: E731
+            return lambda k: hi.call_function(check.node, [k], {}, check.env)
         elif callable(check):
-            run = check
-        else:
+            return check
+        return None
+
+    return build, imported
+
+
+def _deferred_by_interpretation(ctx, m):
+    """Build Deferred["pkg.sub.Cls"] abstractly (module not loaded) and ask its class test about classes from various
+    modules: it answers issubclass(cls, <the class>) exactly for classes whose module's first dotted component is
+    `pkg`, False otherwise, and resolves the reference (imports) only in the first case."""
+    from ..metainterp import Raised, Record
+    from ..model import AnalysisError
+
+    setup = _deferred_setup(ctx, m)
+    if not setup:
+        return False
+    build, imported = setup
+    try:
+        run = build()
+        if run is None:
             ctx.note(f"{m.key}: the class test handed to the handler was not captured; shape rule used instead")
             return False
         bad = None
@@ -460,6 +480,60 @@ def r7(ctx):
     from .c01 import r3_candidates_only_narrow
 
     r3_candidates_only_narrow(ctx)
+
+
+def deferred_test_has_no_history(ctx):
+    """The class test of a deferred reference answers the same about a class whether it is the first class it is asked
+    about or it was asked about any other class before (a class of the package, a foreign class, a subclass or not):
+    the answer is cached per argument class by the tables, so an answer that depends on what was asked before makes a
+    call's outcome depend on earlier calls.  Decided by interpreting a fresh test per ordered pair of questions."""
+    from ..metainterp import Raised, Record
+    from ..model import AnalysisError
+
+    repo = ctx.repo
+    defs = [c for c in repo.all_classes() if c.name == "Deferred" and "__class_getitem__" in c.methods]
+    ctx.require(len(defs) == 1, "the deferred-reference class was not found")
+    m = defs[0].methods["__class_getitem__"]
+    ctx.touch(m)
+    setup = _deferred_setup(ctx, m)
+    ctx.require(bool(setup), f"{m.key}: not the expected shape (one nested class test handed to a handler)")
+    build, imported = setup
+    qs = [(mod, sub) for mod in ("pkg", "pkg.sub", "pkgother", "other.pkg", None) for sub in (True, False)]
+
+    def klass(q):
+        k = Record(sub=q[1])
+        if q[0] is not None:
+            k.__module__ = q[0]
+        return k
+
+    bad = None
+    n = 0
+    try:
+        first = {}
+        for q in qs:
+            run = build()
+            ctx.require(run is not None, f"{m.key}: the class test handed to the handler was not captured")
+            first[q] = bool(run(klass(q)))
+        for q0 in qs:
+            for q in qs:
+                run = build()
+                run(klass(q0))
+                again = bool(run(klass(q0)))
+                got = bool(run(klass(q)))
+                n += 1
+                if bad is None and again != first[q0]:
+                    bad = (q0, q0, again, first[q0])
+                if bad is None and got != first[q]:
+                    bad = (q0, q, got, first[q])
+    except Raised as e:
+        raise AnalysisError(f"{m.key}: the class test raises {e.what} on a second question")
+    ctx.ob(
+        f"{m.key}:no-history",
+        m.loc(),
+        f"the class test of a deferred reference gives one answer per class, whatever it was asked before ({n} ordered pairs of questions on fresh tests)",
+        bad is None,
+        (f"asked about a class of module {bad[1][0]!r} (subclass of the referenced class: {bad[1][1]}) it answers {bad[2]} after a question about a class of module {bad[0][0]!r} (subclass: {bad[0][1]}) and {bad[3]} when asked first: which method runs for that class depends on which classes were dispatched on earlier" if bad else ""),
+    )
 
 
 RULES = [
